@@ -47,13 +47,10 @@ func tar(ctx context.Context, enc FormatEncoder, fs *fsBufReader, f *File) (n in
 		if err != nil {
 			return 0, err
 		}
+		if !encodable(f) {
+			return 0, nil
+		}
 		return tar(ctx, enc, fs, f)
-	}
-
-	// Skip (and warn about) things we can't encode properly
-	if !(f.IsDir() || f.IsRegular() || f.IsSymlink() || f.IsDevice()) {
-		fmt.Fprintf(os.Stderr, "skipping '%s' : unsupported node type\n", f.Name)
-		return 0, nil
 	}
 
 	// CaFormatEntry
@@ -108,6 +105,12 @@ func tar(ctx context.Context, enc FormatEncoder, fs *fsBufReader, f *File) (n in
 			if !(path.Dir(f.Path) == dir) {
 				fs.Buffer(f)
 				break
+			}
+
+			// Skip this one before anything is written for it, a filename
+			// element has to be followed by an entry
+			if !encodable(f) {
+				continue
 			}
 
 			start := n
@@ -202,6 +205,15 @@ func tar(ctx context.Context, enc FormatEncoder, fs *fsBufReader, f *File) (n in
 		return n, fmt.Errorf("unable to determine node type of '%s'", f.Name)
 	}
 	return
+}
+
+// Returns false for (and warns about) things we can't encode properly
+func encodable(f *File) bool {
+	if f.IsDir() || f.IsRegular() || f.IsSymlink() || f.IsDevice() {
+		return true
+	}
+	fmt.Fprintf(os.Stderr, "skipping '%s' : unsupported node type\n", f.Name)
+	return false
 }
 
 // Wrapper for filesystem reader to allow returning elements into a buffer
